@@ -376,12 +376,25 @@ impl ProtocolStage for SigrefsAt {
         &self,
         _s: &FetchState,
         _repo: &Repository,
-        _refs: &'a [ReceivedRef],
+        refs: &'a [ReceivedRef],
     ) -> Result<Updates<'a>, error::Prepare> {
         let mut updates = Updates::default();
         for RefsAt { remote, at } in self.refs_at.iter() {
+            // N.b. the remote may have moved on since it announced `at`. The signed
+            // refs that are validated and applied are the ones of the advertised
+            // tip, so the `rad/sigrefs` reference has to follow that tip too.
+            let tip = refs
+                .iter()
+                .find_map(|r| match &r.name {
+                    ReceivedRefname::Namespaced {
+                        remote: advertised,
+                        suffix: Either::Left(Special::SignedRefs),
+                    } if advertised == remote => Some(r.tip),
+                    _ => None,
+                })
+                .unwrap_or(*at);
             if let Some(up) =
-                refs::special_update(remote, &Either::Left(Special::SignedRefs), *at, |remote| {
+                refs::special_update(remote, &Either::Left(Special::SignedRefs), tip, |remote| {
                     self.delegates.contains(remote)
                 })
             {
